@@ -24,11 +24,11 @@ func vhC23Leaf(c *api.Context, name string) b6.Query {
 		vAssert(err == nil, "all")
 		return q
 	case 1:
-		q, err := keyed(c, "#amenity")
+		q, err := keyed(c, []string{"#amenity", "@source", "name", ""}[vChoice(name+"key", 4)])
 		vAssert(err == nil, "keyed")
 		return q
 	case 2:
-		q, err := tagged(c, "#amenity", "cafe")
+		q, err := tagged(c, []string{"#amenity", ""}[vChoice(name+"tkey", 2)], []string{"cafe", ""}[vChoice(name+"tvalue", 2)])
 		vAssert(err == nil, "tagged")
 		return q
 	case 3:
